@@ -81,7 +81,7 @@ CONSTANTS Defects,        \* subset of AllDefects
 AllDefects == {"exit_after_time_module", "init_fail_skips_fini", "mq_ctor_partial_leak", "no_teardown_on_setup_failure",
                "shutdown_not_in_finally", "exitmsg_wrong_flag", "obey_wrong_flag", "propagate_error_escapes",
                "stop_evt_not_set"}
-LineageDefects == {"abort_at_every_site", "not_idempotent", "hb_complete", "running_after_terminal", "terminal_without_start"}   \* see Lineage.tla
+LineageDefects == {"abort_at_every_site", "not_idempotent", "hb_complete", "running_after_terminal", "terminal_without_start", "log_fail_complete"}   \* see Lineage.tla
 Policies == {"all", "clean", "error", "none"}
 ASSUME Defects \subseteq AllDefects \cup LineageDefects /\ K \in Nat /\ PropSet \subseteq Policies /\ ObeySet \subseteq Policies
 ASSUME EASet \subseteq {"none", "secs", "ms", "at"} /\ WithInterrupt \in BOOLEAN /\ Emit \in BOOLEAN /\ EarlyExit \in BOOLEAN
@@ -229,14 +229,21 @@ Fini(c) ==
      \/ c = "exit"  /\ s' = [t EXCEPT !.outcome = "Exit", !.stopEvt = TRUE, !.faults = Flt("exit"), !.cause = Cause("fault")]
 
 (* --- except Exception: raise / except Filter.Exit: pass / finally: stop_logging / finally: stop_evt.set()  l.1196-1220 *)
-Handlers ==
+\* c = "log_raise": stop_logging() fails while it closes the log files (a full disk): the exception leaves the inner finally and
+\* replaces whatever was in flight; the outer finally still sets the stop event
+Handlers(c) ==
   /\ s.stage = "handlers"
-  /\ s' = [s EXCEPT !.stage = "stopped", !.logOpen = FALSE,
+  /\ c = "log_raise" => s.logOpen /\ EarlyExit
+  /\ LET out == IF c = "log_raise" THEN "Exception" ELSE s.outcome IN
+     s' = [s EXCEPT !.stage = "stopped", !.logOpen = FALSE,
                     !.stopEvt = IF D("stop_evt_not_set") THEN s.stopEvt ELSE TRUE,
-                    !.result = IF s.outcome \in {"Exception", "Interrupt"} THEN "raised" ELSE "returned"]
+                    !.outcome = out,
+                    !.faults = IF c = "log_raise" THEN Flt("raise") ELSE s.faults,
+                    !.cause = IF c = "log_raise" THEN Cause("fault") ELSE s.cause,
+                    !.result = IF out \in {"Exception", "Interrupt"} THEN "raised" ELSE "returned"]
 
 Labels == ({"construct"} \X {"ok", "raise"}) \cup ({"init"} \X InitChoices) \cup ({"setup", "shutdown", "fini"} \X {"ok", "raise", "exit"})
-          \cup ({"iter"} \X IterEvents) \cup {<<"loopexit", "">>, <<"exitmsg", "">>, <<"handlers", "">>}
+          \cup ({"iter"} \X IterEvents) \cup {<<"loopexit", "">>, <<"exitmsg", "">>, <<"handlers", "">>, <<"handlers", "log_raise">>}
 
 Step(l) ==
   /\ \/ l[1] = "construct" /\ Construct(l[2])
@@ -247,7 +254,7 @@ Step(l) ==
      \/ l[1] = "shutdown"  /\ Shutdown(l[2])
      \/ l[1] = "exitmsg"   /\ ExitMsg
      \/ l[1] = "fini"      /\ Fini(l[2])
-     \/ l[1] = "handlers"  /\ Handlers
+     \/ l[1] = "handlers"  /\ Handlers(l[2])
   /\ path' = Append(path, l)
 
 Next == \E l \in Labels : Step(l)
